@@ -72,7 +72,7 @@ fn main() {
     framework::install_quiet_panic_hook();
     let verif_dir = std::env::var("VERIF_DIR").unwrap_or_else(|_| "/verif".to_string());
 
-    if let Some(code) = monitors::special(&id, &extra, tier, seed, &verif_dir) {
+    if let Some(code) = monitors::special(&id, &extra, tier, seed, &verif_dir, cases) {
         std::process::exit(code);
     }
     let mon: Box<dyn Monitor> = match monitors::by_id(&id) {
